@@ -93,6 +93,11 @@ Proof.
   destruct (prefix_of_seq _ _ _ _ _ E) as [E1 L]. eexists. split; [exact L | exact E1].
 Qed.
 
+Corollary mpsc_per_sender_order_full s a : Reach s ->
+  filter (from a) (sent s) = map (pair a) (seq 0 (sn (Sd s a))) /\
+  exists k, k <= sn (Sd s a) /\ filter (from a) (rcvd s) = map (pair a) (seq 0 k).
+Proof. intro H. split; [exact (mpsc_sender_sequence s a H) | exact (mpsc_per_sender_order s a H)]. Qed.
+
 (* ------------------------------------------------------------------------------------------ *)
 (* C06 (ii) / C07 (iii): no lost wake-up *)
 
@@ -177,6 +182,11 @@ Theorem mpsc_send_after_port_drop s a : Reach s -> sdead (Sd s a) = true ->
 Proof.
   intros H D. destruct (I_S _ (inv_reach _ H) a) as (_ & _ & _ & _ & S5). apply S5. exact D.
 Qed.
+
+Corollary mpsc_receiver_gone s a : Reach s ->
+  (ralive (R s) = false -> pdrop s = true) /\
+  (sdead (Sd s a) = true -> sp (Sd s a) = SChk \/ (sp (Sd s a) = SIdle /\ sres (Sd s a) = false)).
+Proof. intro H. split; [exact (mpsc_port_dropped_flag s H) | exact (mpsc_send_after_port_drop s a H)]. Qed.
 
 (* `channels` counts exactly the live handles: the `bad number of channels` panic is unreachable *)
 Theorem mpsc_channels_counts_live s : Reach s ->
